@@ -113,5 +113,9 @@ func verifSumGetBytes(b *UnsafeLinkBuffer, p [][]byte) [][]byte {
 func verifPollFree(p *defaultPoll, op *FDOperator) {
 	n := atomic.AddInt32(&verifK.opFree, 1)
 	verifAssert(n == 1, "C05/poller-slot-released-twice")
+	// the slot token protocol is kept (the real unused() waits until the poller has finished
+	// its do()/done() section and makes every later do() fail); only reset() and the free
+	// list are left to C10
+	op.unused()
 }
 
